@@ -15,12 +15,13 @@ import (
 func init() { props["C12"] = runC12 }
 
 type pkgSpec struct {
-	Engine string `json:"engine"`
-	Lang   string `json:"lang"`
-	Fault  string `json:"fault"`
-	Dir    string `json:"dir"`
-	Out    string `json:"out"`
-	Name   string `json:"name"`
+	Engine string   `json:"engine"`
+	Lang   string   `json:"lang"`
+	Fault  string   `json:"fault"`
+	Dir    string   `json:"dir"`
+	Out    string   `json:"out"`
+	Name   string   `json:"name"`
+	Extra  []string `json:"extra,omitempty"` // further gen targets of the same entry
 }
 
 var pkgFaults = []string{"bad-schema", "bad-schema-syntax", "bad-query", "bad-query-syntax", "codegen-fail", "missing-path", "unreadable-entry", "empty-queries", "dup-query",
@@ -82,6 +83,16 @@ func (p pkgSpec) build(files map[string]string) string {
 	case "python":
 		gen = fmt.Sprintf(`"python":{"package":%q,"out":%q}`, p.Dir, p.Out)
 	}
+	for _, x := range p.Extra {
+		switch x {
+		case "go":
+			gen += fmt.Sprintf(`,"go":{"package":%q,"out":%q}`, name, p.Out+"_go")
+		case "kotlin":
+			gen += fmt.Sprintf(`,"kotlin":{"package":"com.example.%s","out":%q}`, p.Dir, p.Out+"_kt")
+		case "python":
+			gen += fmt.Sprintf(`,"python":{"package":%q,"out":%q}`, p.Dir, p.Out+"_py")
+		}
+	}
 	if schemaJSON == "" {
 		schemaJSON = fmt.Sprintf("%q", schemaPath)
 	}
@@ -110,6 +121,14 @@ func genPkgSpec(r *Rng, i int, faulty bool) pkgSpec {
 	p.Lang = r.Pick([]string{"go", "go", "go", "kotlin", "python"})
 	if p.Lang == "python" {
 		p.Engine = "postgresql"
+	}
+	if p.Engine == "postgresql" && r.Chance(35) {
+		// one sql entry, several gen targets: cmd.Generate expands it into one package per language
+		for _, x := range []string{"go", "kotlin", "python"} {
+			if x != p.Lang && r.Bool() {
+				p.Extra = append(p.Extra, x)
+			}
+		}
 	}
 	if faulty {
 		p.Fault = r.Pick(pkgFaults)
@@ -230,6 +249,9 @@ func runC12(r *Rng, n int, tier string) {
 				tags = append(tags, "fault:"+p.Fault)
 			}
 			tags = append(tags, p.Lang+"/"+p.Engine)
+			if len(p.Extra) > 0 {
+				tags = append(tags, fmt.Sprintf("targets=%d", 1+len(p.Extra)))
+			}
 		}
 		files["sqlc.json"] = confV2(entries)
 		res := generate(files)
@@ -270,21 +292,24 @@ func runC12(r *Rng, n int, tier string) {
 	}
 	// invalid configurations: nothing may be produced, a diagnostic must be printed
 	bad := map[string]map[string]string{
-		"unknown-field":   {"sqlc.json": `{"version":"1","packages":[{"path":"db","schema":"s.sql","queries":"q.sql","bogus":true}]}`},
-		"no-version":      {"sqlc.json": `{"packages":[{"path":"db","schema":"s.sql","queries":"q.sql"}]}`},
-		"bad-version":     {"sqlc.json": `{"version":"7","packages":[]}`},
-		"no-packages":     {"sqlc.json": `{"version":"1","packages":[]}`},
-		"both-configs":    {"sqlc.json": `{"version":"1","packages":[{"path":"db","schema":"s.sql","queries":"q.sql"}]}`, "sqlc.yaml": "version: \"1\"\npackages: []\n"},
-		"no-config":       {"readme.txt": "x"},
-		"not-json":        {"sqlc.json": `{"version":`},
-		"missing-out":     {"sqlc.json": `{"version":"2","sql":[{"engine":"postgresql","schema":"s.sql","queries":"q.sql","gen":{"go":{"package":"db"}}}]}`},
-		"missing-engine":  {"sqlc.json": `{"version":"2","sql":[{"schema":"s.sql","queries":"q.sql","gen":{"go":{"package":"db","out":"db"}}}]}`},
-		"kotlin-no-pkg":   {"sqlc.json": `{"version":"2","sql":[{"engine":"postgresql","schema":"s.sql","queries":"q.sql","gen":{"kotlin":{"out":"kt"}}}]}`},
-		"bad-override":    {"sqlc.json": `{"version":"1","packages":[{"path":"db","schema":"s.sql","queries":"q.sql","overrides":[{"go_type":"x.Y"}]}]}`},
+		"unknown-field":  {"sqlc.json": `{"version":"1","packages":[{"path":"db","schema":"s.sql","queries":"q.sql","bogus":true}]}`},
+		"no-version":     {"sqlc.json": `{"packages":[{"path":"db","schema":"s.sql","queries":"q.sql"}]}`},
+		"bad-version":    {"sqlc.json": `{"version":"7","packages":[]}`},
+		"no-packages":    {"sqlc.json": `{"version":"1","packages":[]}`},
+		"both-configs":   {"sqlc.json": `{"version":"1","packages":[{"path":"db","schema":"s.sql","queries":"q.sql"}]}`, "sqlc.yaml": "version: \"1\"\npackages: []\n"},
+		"no-config":      {"readme.txt": "x"},
+		"not-json":       {"sqlc.json": `{"version":`},
+		"missing-out":    {"sqlc.json": `{"version":"2","sql":[{"engine":"postgresql","schema":"s.sql","queries":"q.sql","gen":{"go":{"package":"db"}}}]}`},
+		"missing-engine": {"sqlc.json": `{"version":"2","sql":[{"schema":"s.sql","queries":"q.sql","gen":{"go":{"package":"db","out":"db"}}}]}`},
+		"kotlin-no-pkg":  {"sqlc.json": `{"version":"2","sql":[{"engine":"postgresql","schema":"s.sql","queries":"q.sql","gen":{"kotlin":{"out":"kt"}}}]}`},
+		"bad-override":   {"sqlc.json": `{"version":"1","packages":[{"path":"db","schema":"s.sql","queries":"q.sql","overrides":[{"go_type":"x.Y"}]}]}`},
 	}
 	// every placement of one configuration fault in an entry with one, two or three gen targets, in the first or
 	// the second entry of the `sql` list (version 2), and in the first or second package (version 1)
-	type tgt struct{ lang, good string; faults map[string]string }
+	type tgt struct {
+		lang, good string
+		faults     map[string]string
+	}
 	tgts := []tgt{
 		{"go", `"go":{"package":"db","out":"db"}`, map[string]string{
 			"no-out":        `"go":{"package":"db"}`,
